@@ -6,6 +6,11 @@
 //!   c16 repair <t:id:cold|~:hot|~>;…   stores set up directly, then `Repository::repair_hotcold_except_packs`
 //!   c16 repo <seed>        repository level on a cold-strict cold store: backup / forget / prune / check / restore /
 //!                          repair-index / hot damage + repair; invariant monitor on the two stores after every command
+//!   c16 repo-hist <steps> <seed>   the same with an explicit step list (`STEP_LETTERS`), incl. index damage + `repair_index`:
+//!                          I all index files lost (hot and cold) · J some index files lost · u an interrupted backup (packs written,
+//!                          its index files and snapshot never) · w index rewritten with wrong pack sizes / packs dropped; each followed
+//!                          by the real `repair_index` (mostly without read_all) behind a spy on the cold store that records the ORDER
+//!                          of warm-up requests and pack reads; first step `N` = the cold store does not need warm-up
 //! Direct oracles (`oracle-fail:`): hot ⊇ cold for key/snapshot/index/tree packs with identical bytes after every
 //! step incl. failed ones, no data pack in hot, repair leaves cold untouched and hot complete, commands succeed on a
 //! cold store that refuses reads of packs that were not warmed up, results equal the source.
@@ -15,6 +20,7 @@ use std::sync::Arc;
 
 use bytes::Bytes;
 use rustic_core::repofile::{FileType, SnapshotFile};
+use rustic_core::verif::decrypt::DecryptReadBackend;
 use rustic_core::{
     BackupOptions, BytesList, CheckOptions, ConfigOptions, Id, PruneOptions, ReadBackend, Repository, RepositoryBackends,
     WriteBackend,
@@ -301,6 +307,105 @@ fn unwarmed_cold_read(cold: &MemBackend) -> Option<&'static str> {
     None
 }
 
+// ---------------------------------------------------------------------------------- cold-store spy
+
+/// What the cold store sees of pack files, in order: `(true, id)` = warm-up request, `(false, id)` = read (full or partial).
+type SpyLog = Arc<std::sync::Mutex<Vec<(bool, Id)>>>;
+
+/// The cold `MemBackend` behind a wrapper recording the ORDER of warm-up requests and pack reads.
+#[derive(Clone, Debug)]
+struct ColdSpy {
+    be: crate::repo::OneConfigBackend,
+    log: SpyLog,
+}
+
+impl ReadBackend for ColdSpy {
+    fn location(&self) -> String {
+        self.be.location()
+    }
+    fn list_with_size(&self, tpe: FileType) -> rustic_core::RusticResult<Vec<(Id, u32)>> {
+        self.be.list_with_size(tpe)
+    }
+    fn read_full(&self, tpe: FileType, id: &Id) -> rustic_core::RusticResult<Bytes> {
+        if tpe == FileType::Pack {
+            self.log.lock().unwrap().push((false, *id));
+        }
+        self.be.read_full(tpe, id)
+    }
+    fn read_partial(&self, tpe: FileType, id: &Id, cacheable: bool, offset: u32, length: u32) -> rustic_core::RusticResult<Bytes> {
+        if tpe == FileType::Pack {
+            self.log.lock().unwrap().push((false, *id));
+        }
+        self.be.read_partial(tpe, id, cacheable, offset, length)
+    }
+    fn warmup_path(&self, tpe: FileType, id: &Id) -> String {
+        self.be.warmup_path(tpe, id)
+    }
+    fn needs_warm_up(&self) -> bool {
+        self.be.needs_warm_up()
+    }
+    fn warm_up(&self, tpe: FileType, id: &Id) -> rustic_core::RusticResult<()> {
+        if tpe == FileType::Pack {
+            self.log.lock().unwrap().push((true, *id));
+        }
+        self.be.warm_up(tpe, id)
+    }
+}
+
+impl WriteBackend for ColdSpy {
+    fn create(&self) -> rustic_core::RusticResult<()> {
+        self.be.create()
+    }
+    fn write_bytes(&self, tpe: FileType, id: &Id, cacheable: bool, content: BytesList) -> rustic_core::RusticResult<()> {
+        self.be.write_bytes(tpe, id, cacheable, content)
+    }
+    fn remove(&self, tpe: FileType, id: &Id, cacheable: bool) -> rustic_core::RusticResult<()> {
+        self.be.remove(tpe, id, cacheable)
+    }
+}
+
+/// every pack read the cold store saw has a warm-up request for that pack EARLIER in the sequence
+fn read_before_warm_up(log: &SpyLog) -> bool {
+    let g = log.lock().unwrap();
+    g.iter().enumerate().any(|(k, (warm, id))| !*warm && !g[..k].iter().any(|(w, i)| *w && i == id))
+}
+
+/// pack ids listed by the index files of the cold store (under `packs` or `packs_to_delete`), read through the repository
+fn indexed_packs(h: &RepoHandle, cold: &MemBackend) -> Option<BTreeSet<Id>> {
+    use rustic_core::repofile::{IndexFile, IndexId};
+    let repo = h.open_oc().ok()?;
+    let dbe = rustic_core::verif::repository::dbe(&repo);
+    let mut out = BTreeSet::new();
+    for id in cold.ids(FileType::Index) {
+        let f: IndexFile = dbe.get_file(&IndexId::from(id)).ok()?;
+        for p in f.packs.iter().chain(f.packs_to_delete.iter()) {
+            _ = out.insert(Id::from(*p.id));
+        }
+    }
+    Some(out)
+}
+
+/// The config files of the two stores: exactly one each, the hot one carries the `is_hot` marker, the cold one does not, and
+/// apart from the marker they are equal (`save_config` + `save_config_hot`).
+fn config_monitor(repo: &Repository<rustic_core::OpenStatus>, hot: &MemBackend, cold: &MemBackend) -> Option<&'static str> {
+    use rustic_core::repofile::ConfigFile;
+    use rustic_core::verif::decrypt::{DecryptBackend, DecryptWriteBackend};
+    if hot.ids(FileType::Config).len() != 1 || cold.ids(FileType::Config).len() != 1 {
+        return Some("oracle-fail:not-exactly-one-config-file-per-store");
+    }
+    let key = *rustic_core::verif::repository::dbe(repo).key();
+    let read = |be: &MemBackend| -> Option<ConfigFile> {
+        let dbe = DecryptBackend::new(Arc::new(crate::repo::OneConfigBackend(be.clone())) as Arc<dyn WriteBackend>, key);
+        dbe.get_file::<ConfigFile>(&Id::default().into()).ok()
+    };
+    let (Some(mut hc), Some(cc)) = (read(hot), read(cold)) else { return Some("oracle-fail:config-file-unreadable") };
+    if hc.is_hot != Some(true) || cc.is_hot == Some(true) {
+        return Some("oracle-fail:config-is-hot-marker-wrong");
+    }
+    hc.is_hot = cc.is_hot;
+    (hc != cc).then_some("oracle-fail:config-hot-and-cold-differ")
+}
+
 const REPO_CHUNK: usize = 4096;
 
 /// Step letters of a repository-level history:
@@ -308,15 +413,27 @@ const REPO_CHUNK: usize = 4096;
 ///   p prune with instant_delete · m prune that only MARKS packs (default keep_delete 23h: unused / repacked packs stay in the
 ///   cold store, listed under `packs_to_delete`) · k prune with keep_delete = 0 (deletes marked packs) · i repair index ·
 ///   x a random subset of the hot files is lost, then repair hotcold (+ packs) · X the whole hot store (all but the config
-///   file) is lost, then repair
-const STEP_LETTERS: &str = "bfFpmkixX";
+///   file) is lost, then repair ·
+///   index damage followed by `repair_index` (read_all in 1/3 of the cases) behind the cold-store spy:
+///   I ALL index files are lost (removed from the hot and the cold store) · J a random non-empty subset of them ·
+///   u an interrupted backup: its packs are in the repository, its index files and its snapshot are not ·
+///   w the index is rewritten as one file in which some packs carry a wrong pack size and some are missing ·
+///   N (first step only) the cold store does NOT need warm-up (reads are never refused, no warm-up oracles) ·
+///   c config change through `apply_config` (treepack growfactor / extra_verify / compression + datapack growfactor / append-only
+///   switched on and off again), in 1/2 of the cases with the cold or the hot config write failing first and the change retried ·
+///   y `copy` of a snapshot of a second (plain, other key) repository INTO the hot/cold repository · Y `copy` of all snapshots of the
+///   hot/cold repository into a fresh plain repository (the harness warms the packs up: `copy` has no warm-up of its own)
+const STEP_LETTERS: &str = "bfFpmkixXIJuwNcyY";
 
 fn random_steps(rng: &mut Rng) -> String {
     let n = 4 + rng.below(4);
     // the first command is a backup (commands on an empty repository are covered by the later steps of other runs)
     let mut v = vec!["b"];
     for _ in 1..n {
-        v.push(*rng.pick(&["b", "b", "b", "b", "f", "F", "p", "m", "m", "k", "i", "x", "X"]));
+        v.push(*rng.pick(&["b", "b", "b", "b", "f", "F", "p", "m", "m", "k", "i", "x", "X", "I", "J", "u", "w", "c", "c", "y", "y", "Y"]));
+    }
+    if rng.chance(1, 8) {
+        v.insert(0, "N");
     }
     v.join(",")
 }
@@ -340,15 +457,23 @@ pub fn repo_hist(steps: &str, seed: u64, read_data_check: bool) -> String {
     let hot = MemBackend::named("hot");
     // fixed-size chunks of 4 KiB: a 70 kB file is 18 blobs of one data pack (restore over partially matching files)
     let cfg = ConfigOptions::default().set_chunker(rustic_core::repofile::Chunker::FixedSize).set_chunk_size(bytesize::ByteSize(REPO_CHUNK as u64));
-    let Ok((h, _)) = RepoHandle::init(cold.clone(), Some(hot.clone()), &cfg) else { return "err:init".into() };
+    // `_oc`: ONE config file per store whatever id it is written under (like real backends) — needed for config changes
+    let Ok((h, _)) = RepoHandle::init_oc(cold.clone(), Some(hot.clone()), &cfg) else { return "err:init".into() };
     let mut tree: BTreeSet<Id> = BTreeSet::new();
     harvest_tree_packs(&cold, &mut tree);
-    // from now on the cold store refuses reads of packs that were not warmed up
-    cold.set_cold(true);
+    // from now on the cold store refuses reads of packs that were not warmed up (unless the history starts with `N`)
+    let strict = steps[0] != 'N';
+    if steps[1..].contains(&'N') {
+        return "bad-op".into();
+    }
+    cold.set_cold(strict);
     let opts = RepoHandle::default_opts();
     let mut sources: Vec<(Id, MemSource)> = Vec::new();
     for (step, kind) in steps.iter().enumerate() {
-        let Ok(repo) = h.open_with(&opts) else { return format!("oracle-fail:open-step{step}") };
+        if *kind == 'N' {
+            continue;
+        }
+        let Ok(repo) = h.open_oc() else { return format!("oracle-fail:open-step{step}") };
         let what;
         cold.clear_log();
         match kind {
@@ -417,6 +542,216 @@ pub fn repo_hist(steps: &str, seed: u64, read_data_check: bool) -> String {
                     return format!("oracle-fail:repair-index-fails-on-cold-strict-store-step{step}");
                 }
             }
+            'c' => {
+                what = "config-change";
+                let mut repo = repo;
+                // append-only is switched on AND off again inside the step (forget / prune / repair refuse on append-only repositories)
+                let changes: Vec<ConfigOptions> = match rng.below(4) {
+                    0 => vec![ConfigOptions::default().set_treepack_growfactor(1 + rng.below(40) as u32)],
+                    1 => vec![ConfigOptions::default().set_extra_verify(rng.chance(1, 2))],
+                    2 => vec![ConfigOptions::default().set_append_only(true), ConfigOptions::default().set_append_only(false)],
+                    _ => vec![ConfigOptions::default().set_compression(rng.below(10) as i32).set_datapack_growfactor(1 + rng.below(40) as u32)],
+                };
+                for o in &changes {
+                    // the prefix dimension: `save_config` writes the cold config file, then the hot one — let the first / the second write fail
+                    let fault = rng.below(4);
+                    match fault {
+                        0 => cold.set_fail_only(Some(cold.log().len())),
+                        1 => hot.set_fail_only(Some(hot.log().len())),
+                        _ => {}
+                    }
+                    let (logc, logh) = (cold.log().len(), hot.log().len());
+                    let r = repo.apply_config(o);
+                    cold.set_fail_only(None);
+                    hot.set_fail_only(None);
+                    let wrote = cold.log().len() != logc || hot.log().len() != logh;
+                    match r {
+                        Err(_) if fault < 2 && wrote => {
+                            // interrupted between / before the two writes: the repository still opens, the repeated change goes through
+                            let Ok(r2) = h.open_oc() else { return format!("oracle-fail:open-after-interrupted-config-change-step{step}") };
+                            repo = r2;
+                            if repo.apply_config(o).is_err() {
+                                return format!("oracle-fail:apply-config-fails-after-interrupted-config-change-step{step}");
+                            }
+                        }
+                        Err(_) => return format!("oracle-fail:apply-config-fails-step{step}"),
+                        Ok(_) if fault < 2 && wrote => return "oracle-fail:apply-config-ok-despite-failed-config-write".into(),
+                        Ok(_) => {}
+                    }
+                    if let Some(m) = config_monitor(&repo, &hot, &cold) {
+                        return format!("{m}-after-apply-config");
+                    }
+                    // the stored config is the requested one
+                    let Ok(r2) = h.open_oc() else { return format!("oracle-fail:open-after-config-change-step{step}") };
+                    let c = r2.config();
+                    let ok = o.set_treepack_growfactor.is_none_or(|v| c.treepack_growfactor == Some(v))
+                        && o.set_datapack_growfactor.is_none_or(|v| c.datapack_growfactor == Some(v))
+                        && o.set_extra_verify.is_none_or(|v| c.extra_verify == Some(v))
+                        && o.set_compression.is_none_or(|v| c.compression == Some(v))
+                        && o.set_append_only.is_none_or(|v| c.append_only == Some(v));
+                    if !ok {
+                        return "oracle-fail:config-change-not-stored".into();
+                    }
+                    repo = r2;
+                }
+            }
+            'y' => {
+                what = "copy-into";
+                // a second, plain repository (its own key) with one backup; 1/2: one of its files repeats content the hot/cold
+                // repository already holds (only the missing blobs are copied)
+                let Ok((h2, _)) = RepoHandle::init(MemBackend::named("second"), None, &cfg) else { return "err:init".into() };
+                let mut entries = Vec::new();
+                for i in 0..1 + rng.below(3) {
+                    let len = *rng.pick(&[0usize, 10, 3000, 9000, 70_000]);
+                    let mut e = SrcEntry::file(&[format!("y{step}").as_bytes(), format!("f{i}").as_bytes()], &rng.bytes(len));
+                    e.mtime_s += 100 * (step as i64 + 1) + i as i64;
+                    entries.push(e);
+                }
+                if rng.chance(1, 2) {
+                    if let Some(known) = sources.last().and_then(|(_, s)| s.entries.iter().find(|e| matches!(e.kind, crate::repo::SrcKind::File(_)))) {
+                        let mut e = known.clone();
+                        e.path = vec![format!("y{step}").into_bytes(), b"known".to_vec()];
+                        entries.push(e);
+                    }
+                }
+                let src2 = MemSource::new(entries);
+                let Ok(snap2) = crate::repo::backup(&h2, &src2, &BackupOptions::default(), SnapshotFile::default()) else { return format!("oracle-fail:backup-second-step{step}") };
+                let Ok(from) = h2.open().and_then(Repository::to_indexed) else { return format!("oracle-fail:index-second-step{step}") };
+                let Ok(to) = repo.to_indexed_ids() else { return format!("oracle-fail:index-step{step}") };
+                let before: BTreeSet<Id> = cold.ids(FileType::Snapshot).into_iter().collect();
+                if from.copy(&to, [&snap2]).is_err() {
+                    return format!("oracle-fail:copy-into-hotcold-fails-step{step}");
+                }
+                let new: Vec<Id> = cold.ids(FileType::Snapshot).into_iter().filter(|i| !before.contains(i)).collect();
+                let [id] = new.as_slice() else { return "oracle-fail:copy-into-hotcold-did-not-add-one-snapshot".into() };
+                sources.push((*id, src2));
+            }
+            'Y' => {
+                what = "copy-out";
+                // `copy` reads the blobs with ranged pack reads and has no warm-up of its own (the property's warm-up clause lists
+                // restore, prune and index repair): the harness warms everything up, as a user of a cold store has to
+                for id in cold.ids(FileType::Pack) {
+                    _ = cold.warm_up(FileType::Pack, &id);
+                }
+                let Ok((h2, _)) = RepoHandle::init(MemBackend::named("plain"), None, &cfg) else { return "err:init".into() };
+                let Ok(from) = repo.to_indexed() else { return format!("oracle-fail:index-step{step}") };
+                let Ok(snaps) = from.get_all_snapshots() else { return format!("oracle-fail:snapshots-step{step}") };
+                let Ok(to) = h2.open().and_then(Repository::to_indexed_ids) else { return "err:open".into() };
+                if from.copy(&to, snaps.iter()).is_err() {
+                    return format!("oracle-fail:copy-from-hotcold-fails-step{step}");
+                }
+                // the plain copy holds every snapshot with the source's content and checks clean
+                let Ok(plain) = h2.open().and_then(Repository::to_indexed) else { return "oracle-fail:open-plain-copy".into() };
+                let Ok(copied) = plain.get_all_snapshots() else { return "oracle-fail:snapshots-of-plain-copy".into() };
+                if copied.len() != sources.len() {
+                    return "oracle-fail:copy-from-hotcold-snapshot-count".into();
+                }
+                for s in &copied {
+                    // copies get new ids: identify by tree
+                    let Some(orig) = snaps.iter().find(|o| o.tree == s.tree && o.time == s.time) else { return "oracle-fail:copy-from-hotcold-unknown-snapshot".into() };
+                    let Some((_, src)) = sources.iter().find(|(id, _)| *id == *orig.id) else { return "oracle-fail:unknown-snapshot".into() };
+                    match read_back(&plain, s).map(|v| v.into_iter().filter(|r| r.path != b"src").collect::<Vec<_>>()) {
+                        Ok(rb) if rb == expected(src) => {}
+                        _ => return "oracle-fail:copy-from-hotcold-content-differs".into(),
+                    }
+                }
+                if crate::repo::check_errors(&h2, true) != Some(0) {
+                    return "oracle-fail:check-errors-in-plain-copy".into();
+                }
+            }
+            'I' | 'J' | 'u' | 'w' => {
+                what = match kind {
+                    'I' => "repair-index-after-all-index-files-lost",
+                    'J' => "repair-index-after-some-index-files-lost",
+                    'u' => "repair-index-after-interrupted-backup",
+                    _ => "repair-index-after-wrong-sizes-and-dropped-packs",
+                };
+                let index_ids = cold.ids(FileType::Index);
+                let lose = |ids: &[Id]| {
+                    for id in ids {
+                        hot.del_raw(FileType::Index, id);
+                        cold.del_raw(FileType::Index, id);
+                    }
+                };
+                match kind {
+                    'I' => lose(&index_ids),
+                    'J' => {
+                        let mut sub: Vec<Id> = index_ids.iter().copied().filter(|_| rng.chance(1, 2)).collect();
+                        if sub.is_empty() {
+                            sub.extend(index_ids.first().copied());
+                        }
+                        lose(&sub);
+                    }
+                    'u' => {
+                        // a backup whose packs reach the repository but whose index files and snapshot do not
+                        let snaps_before: BTreeSet<Id> = cold.ids(FileType::Snapshot).into_iter().collect();
+                        let entries: Vec<SrcEntry> = (0..1 + rng.below(3))
+                            .map(|i| {
+                                let len = *rng.pick(&[10usize, 3000, 9000, 70_000]);
+                                let mut e = SrcEntry::file(&[format!("u{step}").as_bytes(), format!("f{i}").as_bytes()], &rng.bytes(len));
+                                e.mtime_s += 100 * (step as i64 + 1) + i as i64;
+                                e
+                            })
+                            .collect();
+                        let Ok(r) = repo.to_indexed_ids() else { return format!("oracle-fail:index-step{step}") };
+                        if r.archive(&BackupOptions::default(), &MemSource::new(entries), SnapshotFile::default(), &[PathBuf::from(crate::repo::SRC_ROOT)]).is_err() {
+                            return format!("oracle-fail:backup-step{step}");
+                        }
+                        harvest_tree_packs(&cold, &mut tree);
+                        let new_idx: Vec<Id> = cold.ids(FileType::Index).into_iter().filter(|i| !index_ids.contains(i)).collect();
+                        lose(&new_idx);
+                        for id in cold.ids(FileType::Snapshot) {
+                            if !snaps_before.contains(&id) {
+                                hot.del_raw(FileType::Snapshot, &id);
+                                cold.del_raw(FileType::Snapshot, &id);
+                            }
+                        }
+                    }
+                    _ => {
+                        use rustic_core::repofile::{IndexFile, IndexId};
+                        let dbe = rustic_core::verif::repository::dbe(&repo);
+                        let mut all = IndexFile::default();
+                        for id in &index_ids {
+                            let Ok(f) = dbe.get_file::<IndexFile>(&IndexId::from(*id)) else { return format!("oracle-fail:index-unreadable-step{step}") };
+                            all.packs.extend(f.packs);
+                            all.packs_to_delete.extend(f.packs_to_delete);
+                        }
+                        for l in [&mut all.packs, &mut all.packs_to_delete] {
+                            l.retain(|_| !rng.chance(1, 4));
+                            for p in l.iter_mut() {
+                                if rng.chance(1, 2) {
+                                    p.size = Some(p.pack_size() + 1 + rng.below(50) as u32);
+                                }
+                            }
+                        }
+                        lose(&index_ids);
+                        if !(all.packs.is_empty() && all.packs_to_delete.is_empty()) && rustic_core::verif::repository::save_file(&repo, &all).is_err() {
+                            return format!("oracle-fail:save-index-step{step}");
+                        }
+                    }
+                }
+                // the real `repair_index` on a repository whose cold store is wrapped by the spy
+                let read_all = rng.chance(1, 3);
+                let spy = ColdSpy { be: crate::repo::OneConfigBackend(cold.clone()), log: SpyLog::default() };
+                let bes = RepositoryBackends::new(Arc::new(spy.clone()), Some(Arc::new(crate::repo::OneConfigBackend(hot.clone()))));
+                let Ok(r) = Repository::new(&opts, &bes).and_then(|r| r.open(&rustic_core::Credentials::Masterkey(h.key.clone()))) else {
+                    return format!("oracle-fail:open-step{step}");
+                };
+                cold.clear_log();
+                cold.inner.lock().unwrap().warm.clear();
+                if r.repair_index(&rustic_core::RepairIndexOptions::default().read_all(read_all), false).is_err() {
+                    return format!("oracle-fail:repair-index-fails-on-cold-strict-store-step{step}");
+                }
+                // (1) every pack read the cold store saw was preceded by a warm-up request for that pack
+                if strict && read_before_warm_up(&spy.log) {
+                    return format!("oracle-fail:cold-pack-read-before-warm-up-request-during-{what}{}", if read_all { "-read-all" } else { "" });
+                }
+                // (2) every pack of the cold store is listed by the new index
+                let Some(listed) = indexed_packs(&h, &cold) else { return format!("oracle-fail:index-unreadable-after-{what}") };
+                if cold.ids(FileType::Pack).iter().any(|p| !listed.contains(p)) {
+                    return format!("oracle-fail:cold-pack-not-in-index-after-{what}{}", if read_all { "-read-all" } else { "" });
+                }
+            }
             _ => {
                 what = if *kind == 'X' { "hot-store-lost+repair" } else { "hot-damage+repair" };
                 // lose hot files (all types but the config file): everything, or a random subset; then repair
@@ -427,11 +762,11 @@ pub fn repo_hist(steps: &str, seed: u64, read_data_check: bool) -> String {
                     }
                 }
                 cold.inner.lock().unwrap().warm.clear();
-                let Ok(r0) = Repository::new(&opts, &h.backends()) else { return "oracle-fail:new".into() };
+                let Ok(r0) = Repository::new(&opts, &h.backends_oc()) else { return "oracle-fail:new".into() };
                 if r0.repair_hotcold_except_packs(false).is_err() {
                     return format!("oracle-fail:repair-hotcold-fails-step{step}");
                 }
-                let Ok(repo) = h.open_with(&opts) else { return format!("oracle-fail:open-after-repair-step{step}") };
+                let Ok(repo) = h.open_oc() else { return format!("oracle-fail:open-after-repair-step{step}") };
                 if repo.repair_hotcold_packs(false).is_err() {
                     return format!("oracle-fail:repair-hotcold-packs-fails-step{step}");
                 }
@@ -443,12 +778,18 @@ pub fn repo_hist(steps: &str, seed: u64, read_data_check: bool) -> String {
             return format!("{m}-after-{what}");
         }
         // every pack read that reached the cold store during the command was requested to be warmed up (by that command)
-        if let Some(m) = unwarmed_cold_read(&cold) {
-            return format!("{m}-during-{what}");
+        if strict {
+            if let Some(m) = unwarmed_cold_read(&cold) {
+                return format!("{m}-during-{what}");
+            }
         }
         // results as on a single store: check clean, every snapshot reads back; restore needs data packs from cold
         cold.inner.lock().unwrap().warm.clear();
-        let Ok(repo) = h.open_with(&opts) else { return format!("oracle-fail:reopen-step{step}") };
+        let Ok(repo) = h.open_oc() else { return format!("oracle-fail:reopen-step{step}") };
+        // the two config files: one per store, equal up to the is_hot marker
+        if let Some(m) = config_monitor(&repo, &hot, &cold) {
+            return format!("{m}-after-{what}");
+        }
         let Ok(res) = repo.check(CheckOptions::default()) else { return format!("oracle-fail:check-failed-after-{what}") };
         if res.0.iter().any(|(l, _)| format!("{l:?}") == "Error") {
             return format!("oracle-fail:check-errors-after-{what}");
@@ -463,7 +804,7 @@ pub fn repo_hist(steps: &str, seed: u64, read_data_check: bool) -> String {
     }
     // read-back of every snapshot (dump reads data packs from the cold store: must be warmed up by the caller — `dump`
     // has no warm-up of its own, so warm everything here) and real restores (which must warm up by themselves)
-    let Ok(repo) = h.open_with(&opts) else { return "oracle-fail:reopen".into() };
+    let Ok(repo) = h.open_oc() else { return "oracle-fail:reopen".into() };
     let Ok(repo) = repo.to_indexed() else { return "oracle-fail:index".into() };
     let Ok(snaps) = repo.get_all_snapshots() else { return "oracle-fail:snapshots".into() };
     if snaps.len() != sources.len() {
@@ -515,7 +856,7 @@ pub fn repo_hist(steps: &str, seed: u64, read_data_check: bool) -> String {
                 return format!("oracle-fail:restore-{e}{}", if round == 1 { "-over-existing-files" } else { "" });
             }
             // every pack read from the cold store was requested to be warmed up before
-            if let Some(m) = unwarmed_cold_read(&cold) {
+            if let Some(m) = unwarmed_cold_read(&cold).filter(|_| strict) {
                 return format!("{m}-during-restore{}", if round == 1 { "-over-existing-files" } else { "" });
             }
             for e in &src.entries {
@@ -757,6 +1098,48 @@ pub fn generate(thorough: bool, rng: &mut Rng, ops: &mut Vec<String>, stats: &mu
             st.push(*rng.pick(&["b", "k", "p", "m", "i", "x", "f"]));
         }
         stats.hit("repo-hist.marked-packs-then-hot-loss");
+        ops.push(format!("c16 repo-hist {} {}", st.join(","), rng.below(1 << 32)));
+    }
+    // directed histories: backups (+ forget / marking prune), then the index is lost completely / partly / an interrupted backup
+    // leaves packs unindexed / index entries carry wrong pack sizes — each followed by `repair_index` (mostly WITHOUT read_all) on
+    // the cold-strict store; afterwards further commands on the repaired repository
+    let n_idx = if thorough { 1000 } else { 32 };
+    for k in 0..n_idx {
+        let mut st: Vec<&str> = Vec::new();
+        if rng.chance(1, 8) {
+            st.push("N");
+        }
+        for _ in 0..1 + rng.below(3) {
+            st.push("b");
+        }
+        if rng.chance(1, 3) {
+            st.push(*rng.pick(&["f", "F"]));
+            st.push(*rng.pick(&["m", "b"]));
+        }
+        let dmg = ["I", "J", "u", "w"][k % 4];
+        st.push(dmg);
+        for _ in 0..rng.below(3) {
+            st.push(*rng.pick(&["b", "p", "m", "i", "I", "J", "u", "w", "x", "f"]));
+        }
+        stats.hit(format!("repo-hist.index-damage-{dmg}-then-repair-index"));
+        ops.push(format!("c16 repo-hist {} {}", st.join(","), rng.below(1 << 32)));
+    }
+    // directed histories with copy and config steps between backups / forget / prune / hot-store loss
+    let n_cc = if thorough { 600 } else { 24 };
+    for k in 0..n_cc {
+        let mut st: Vec<&str> = Vec::new();
+        if rng.chance(1, 8) {
+            st.push("N");
+        }
+        st.push("b");
+        for _ in 0..2 + rng.below(4) {
+            st.push(*rng.pick(&["c", "c", "y", "y", "Y", "b", "f", "m", "p", "x", "i", "I"]));
+        }
+        st.push(["c", "y", "Y"][k % 3]);
+        if rng.chance(1, 2) {
+            st.push(*rng.pick(&["b", "p", "X", "k"]));
+        }
+        stats.hit("repo-hist.copy-and-config");
         ops.push(format!("c16 repo-hist {} {}", st.join(","), rng.below(1 << 32)));
     }
     // DESIGN §7 #15 (known finding): check --read-data on a warmed-up hot/cold repository
